@@ -420,8 +420,75 @@ package tds
 //@ # Read is PacketQueue's io.Reader face; it is specified over the queue's own stream
 //@ # (the transport ghosts of io.Reader do not apply to it).
 //@ func (*PacketQueue).Read returns (n, err) noiface:io.Reader.Read
+//@   requires [no-alias] forall j int :: 0 <= j && j < len(queue.queue) ==> arr(queue.queue[j].Data) != arr(p)
+//@   cut typeinv PacketQueue/content by this.$readable ==> old(pqc(this, j, i))
 //@   requires [chwf] chwf(queue)
 //@   requires [readable] queue.$readable
 //@   modifies queue.indexPacket, queue.indexData, queue.$r, queue.$dry, elems(p)
 //@   ensures [fills-buffer] err == nil ==> n == len(p) && (forall k int :: 0 <= k && k < n ==> p[k] == queue.$in[old(queue.$r) + k])
 //@   ensures [advances] err == nil ==> queue.$r == old(queue.$r) + n
+
+//@ # ---------------------------------------------------------------------
+//@ # PacketQueue, transmit side (C01 / C15): bytes written are $out[.. $w); the packets in
+//@ # the queue hold the not yet discarded tail of that stream, every packet but the one
+//@ # under the cursor is full, and each packet's capacity is Header.Length - 8.
+//@ ghost field BytesChannel.$writable bool
+//@ # the queue's packetSize function is Conn.PacketSize (bound in NewChannel); its range is
+//@ # the type invariant of Conn.
+//@ func fieldfunc:PacketQueue.packetSize returns (r)
+//@   modifies
+//@   ensures [range] 8 < r && r <= 65535
+//@ pred pqt1at(q *PacketQueue, j int) { 0 <= j && j < len(q.queue) ==> q.queue[j] != nil && allocated(q.queue[j]) && allocated(q.queue[j].Data) && q.queue[j].Data != nil && len(q.queue[j].Data) + 8 == q.queue[j].Header.Length && len(q.queue[j].Data) >= 1 && 0 <= q.queue[j].$pos }
+//@ pred pqtdist(q *PacketQueue, j int, k int) { 0 <= j && j < k && k < len(q.queue) ==> q.queue[j] != q.queue[k] && arr(q.queue[j].Data) != arr(q.queue[k].Data) }
+//@ pred pqtcursor(q *PacketQueue) { (len(q.queue) == 0 ==> q.indexPacket == 0 && q.indexData == 0) && (len(q.queue) > 0 ==> q.indexPacket == len(q.queue) - 1 && 1 <= q.indexData && q.indexData <= len(q.queue[q.indexPacket].Data)) }
+//@ pred pqtchain(q *PacketQueue, j int) { 0 <= j && j + 1 < len(q.queue) ==> q.queue[j+1].$pos == q.queue[j].$pos + len(q.queue[j].Data) }
+//@ pred pqtc(q *PacketQueue, j int, i int) { 0 <= j && j < len(q.queue) && 0 <= i && (j < q.indexPacket ? i < len(q.queue[j].Data) : i < q.indexData) ==> q.queue[j].Data[i] == q.$out[q.queue[j].$pos + i] }
+//@ pred pqtbelow(q *PacketQueue, j int, w int) { 0 <= j && j < q.indexPacket && j < len(q.queue) ==> q.queue[j].$pos + len(q.queue[j].Data) <= w }
+//@ pred pqtw(q *PacketQueue) { 0 <= q.$w && (len(q.queue) > 0 ==> q.$w == q.queue[q.indexPacket].$pos + q.indexData) }
+//@ typeinv PacketQueue { [t1] forall j int :: this.$writable ==> pqt1at(this, j) }
+//@ typeinv PacketQueue { [tdist] forall j int, k int :: this.$writable ==> pqtdist(this, j, k) }
+//@ typeinv PacketQueue { [tcursor] this.$writable ==> pqtcursor(this) }
+//@ typeinv PacketQueue { [tchain] forall j int :: this.$writable ==> pqtchain(this, j) }
+//@ typeinv PacketQueue { [tcontent] forall j int, i int :: this.$writable ==> pqtc(this, j, i) }
+//@ typeinv PacketQueue { [tw] this.$writable ==> pqtw(this) }
+//@ typeinv PacketQueue { [tbelow] forall j int :: this.$writable ==> pqtbelow(this, j, this.$w) }
+//@ typeinv PacketQueue { [psfn] this.$writable ==> this.packetSize != nil }
+//@ typeinv PacketQueue { [one-discipline] !(this.$writable && this.$readable) }
+
+//@ func NewPacket returns (p)
+//@   requires [size] 8 <= packetSize && packetSize <= 65535
+//@   modifies
+//@   ensures [fresh] p != nil && fresh(p) && fresh(p.Data) && p.Data != nil && len(p.Data) == packetSize - 8 && p.Header.Length == packetSize
+//@   ensures [zero-header] p.Header.MsgType == 0 && p.Header.Status == 0 && p.Header.Channel == 0 && p.Header.PacketNr == 0 && p.Header.Window == 0
+
+//@ interface BytesChannel.WriteBytes params (bs) returns (err)
+//@   requires [writable] this.$writable
+//@   requires [chwf] chwf(this)
+//@   modifies this.*, this.$w, this.$out, all Packet.Data, all Packet.Header, all elems *tds.Packet, all elems byte, all Packet.$pos
+//@   ensures [appended] err == nil ==> this.$w == old(this.$w) + len(bs) && (forall k int :: 0 <= k && k < len(bs) ==> this.$out[old(this.$w) + k] == bs[k])
+//@   ensures [prefix-kept] forall k int :: 0 <= k && k < old(this.$w) ==> this.$out[k] == old(this.$out[k])
+//@   ensures [chwf] chwf(this)
+
+//@ pred pqnoalias(q *PacketQueue, j int, bs []byte) { 0 <= j && j < len(q.queue) ==> arr(q.queue[j].Data) != arr(bs) }
+//@ # content of the queue while bs is being written: bytes already in $out, then bytes of bs
+//@ pred pqtcw(q *PacketQueue, j int, i int, bs []byte) { 0 <= j && j < len(q.queue) && 0 <= i && (j < q.indexPacket ? i < len(q.queue[j].Data) : i < q.indexData) ==> q.queue[j].Data[i] == (q.queue[j].$pos + i < old(q.$w) ? old(q.$out[q.queue[j].$pos + i]) : bs[q.queue[j].$pos + i - old(q.$w)]) }
+//@ func (*PacketQueue).WriteBytes returns (err) per-return
+//@   requires [no-alias] forall j int :: 0 <= j && j < len(queue.queue) ==> arr(queue.queue[j].Data) != arr(bs)
+//@   modifies queue.queue, queue.indexPacket, queue.indexData, queue.$w, queue.$out, all Packet.Data, all Packet.Header, all elems *tds.Packet, all elems byte, all Packet.$pos
+//@   ensures [never-fails] err == nil
+//@   ghost-update at exit: queue.$out := seqwrite(old(queue.$out), old(queue.$w), bs)
+//@   ghost-update at exit: queue.$w := old(queue.$w) + len(bs)
+//@   ghost-update at after tds.NewPacket#1: $res0.$pos := old(queue.$w) + bsOffset
+//@   ghost-update at after tds.NewPacket#2: $res0.$pos := old(queue.$w) + bsOffset
+//@   loop 0:
+//@     invariant [bs] 0 <= bsOffset && bsOffset <= len(bs)
+//@     invariant [idx] 0 <= queue.indexPacket && queue.indexPacket <= len(queue.queue) && 0 <= queue.indexData
+//@     invariant [elems] forall j int :: pqelem(queue, j) by@keep head(pqelem(queue, j))
+//@     invariant [t1] forall j int :: queue.$writable ==> pqt1at(queue, j) by@keep queue.$writable ==> head(pqt1at(queue, j))
+//@     invariant [tdist] forall j int, k int :: queue.$writable ==> pqtdist(queue, j, k) by@keep queue.$writable ==> head(pqtdist(queue, j, k)) && head(pqt1at(queue, j)) && head(pqt1at(queue, k))
+//@     invariant [cursor] queue.$writable ==> pqtcursor(queue)
+//@     invariant [chain] forall j int :: queue.$writable ==> pqtchain(queue, j) by@keep queue.$writable ==> head(pqtchain(queue, j)) && head(pqt1at(queue, j)) && head(pqt1at(queue, j + 1))
+//@     invariant [pos] queue.$writable ==> (len(queue.queue) == 0 ==> bsOffset == 0) && (len(queue.queue) > 0 ==> queue.queue[queue.indexPacket].$pos + queue.indexData == old(queue.$w) + bsOffset)
+//@     invariant [noalias] forall j int :: pqnoalias(queue, j, bs) by@keep head(pqnoalias(queue, j, bs))
+//@     invariant [below] forall j int :: queue.$writable ==> pqtbelow(queue, j, old(queue.$w) + bsOffset) by@keep queue.$writable ==> head(pqtbelow(queue, j, old(queue.$w) + bsOffset)) && head(pqt1at(queue, j))
+//@     invariant [content] forall j int, i int :: queue.$writable ==> pqtcw(queue, j, i, bs) by@entry queue.$writable ==> old(pqtc(queue, j, i)) && old(pqtbelow(queue, j, queue.$w)) && old(pqt1at(queue, j)) by@keep queue.$writable ==> head(pqtcw(queue, j, i, bs)) && head(pqt1at(queue, j)) && head(pqtdist(queue, j, queue.indexPacket)) && head(pqnoalias(queue, j, bs))
